@@ -394,7 +394,24 @@ func fragInputs(rng *Rng, n int, maxLen int) (pool [][]byte, kinds []string) {
 				add("records-mutated", integMutate(rng, b))
 			}
 		case 6:
-			add("devcase", integDevCase(rng))
+			if rng.Bool() {
+				add("devcase", integDevCase(rng))
+			} else {
+				// a second sequence that uses a local message type defined only in the first one (definitions do not survive a sequence)
+				local := byte(rng.Intn(16))
+				h := local
+				if local < 4 && rng.Bool() {
+					h = 0x80 | local<<5 | byte(rng.Intn(32))
+				}
+				def := []byte{0x40 | local, 0, 0, byte(rng.Intn(256)), 0, 2, 1, 1, 2, 2, 2, 0x84}
+				data := append([]byte{h}, rng.Bytes(3)...)
+				seq1 := fragSeal(rng, append(append([]byte(nil), def...), data...))
+				recs2 := append(append([]byte(nil), data...), fragRecords(rng, 3)...)
+				if rng.Intn(3) == 0 {
+					recs2 = append(append([]byte(nil), def...), recs2...)
+				}
+				add("records-carry", append(seq1, fragSeal(rng, recs2)...))
+			}
 		case 7:
 			if b := integEncode(rng, integRandCfg(rng)); b != nil {
 				add("truncated", b[:rng.Intn(len(b)+1)])
